@@ -69,10 +69,10 @@ NAME_OF_IFACE = ["lingeling", "sat4j", "minisat"]
 PROLOGUE = [0, 4, 6]            # resource calls before the `try` of the current source (input-class labels only)
 NCALLS = [3, 7, 13]             # resource calls of a fault-free run
 KNOWN_LABELS = ("prologue-fault", "cleanup-fault")
-# which model the requests ask for: 0 = `Variant.current` (solver.py as it is), 1 = `Variant.patched` (the proposed patch of
-# notes/C20.md).  To be switched to 1 — together with `progOf .current` / `current_source_is_documented` in the Lean files —
-# when the patch lands in /repo; C20_MODEL_VARIANT=1 is for experiments with a patched scratch copy (CNFGEN_REPO=…).
-VARIANT = int(os.environ.get("C20_MODEL_VARIANT", "0"))
+# which model the requests ask for: 2 = the reviewed snapshot that the regenerated skeletons of solver.py match
+# (`Solver.sourceVariant`: `current` = /repo with C20-R1 / C20-R2 open, `patched` = with notes/C20_proposed.patch); any other
+# skeleton breaks the theorem `source_is_a_reviewed_snapshot`.  0 / 1 force one of them (C20_MODEL_VARIANT, experiments).
+VARIANT = int(os.environ.get("C20_MODEL_VARIANT", "2"))
 
 OS_FAULTS = ["os:PermissionError", "os:FileNotFoundError", "os:ENOSPC", "os:EMFILE", "os:BrokenPipeError"]
 OTHER_FAULTS = ["other:MemoryError", "other:KeyError", "other:RecursionError"]
